@@ -1,5 +1,5 @@
 """C16 — chunk and archive identifiers: parsing and successor arithmetic."""
-from nx import sym, panics, loops
+from nx import chrono_model as cm, sym, panics, loops
 from nx.spec import *
 from rules import common
 
@@ -72,6 +72,13 @@ def run(chk, tier):
     if got is not None:
         last = call("core::iter::traits::iterator::Iterator::last", call("core::str::<impl str>::chars", F("name")))
         want = sym.opt_match(last, lambda c: table(c, "char", [(ord("S"), some(unit_variant(CT, "Start"))), (ord("I"), some(unit_variant(CT, "Intermediate"))), (ord("E"), some(unit_variant(CT, "End")))], NONE), lambda: NONE)
+        # the letters are ASCII: reading the last byte instead of the last char selects the same names (an ASCII byte is never
+        # part of a multi-byte UTF-8 sequence), so the byte-wise table is the same specification
+        lastb = call("core::slice::<impl [T]>::last", F("name"))
+        want_b = sym.opt_match(lastb, lambda c: table(c, "u8", [(ord("S"), some(unit_variant(CT, "Start"))), (ord("I"), some(unit_variant(CT, "Intermediate"))), (ord("E"), some(unit_variant(CT, "End")))], NONE), lambda: NONE)
+        if sym.sem_eq(canon_calls(got), canon_calls(want_b)) or piecewise_eq(canon_calls(got), canon_calls(want_b)):
+            want = want_b
+            chk.trust("an ASCII byte at the end of a str is its last char (UTF-8 continuation and lead bytes are >= 0x80)")
         expect_c(chk, "VN", CI + "::chunk_type", got, want, fn.where(), "last character S/I/E -> Start/Intermediate/End, anything else None")
         if tpl is not None:
             chk.ob("R-SIB", CI + "::chunk_type~template", tpl[-1][0] == "arg", "the type letter is the template's last element, so it is the name's last character", fn.where(), key="letter-last")
@@ -83,16 +90,16 @@ def run(chk, tier):
     got, fn = eval_or_blind(chk, ev0, "VN", AI + "::site")
     if got is not None:
         expect_c(chk, "VN", AI + "::site", got, call("core::str::<impl str>::get", F("0"), rng(0, 4)), fn.where(), "site = bytes 0..4 (checked)")
-    got, fn = eval_or_blind(chk, ev0, "VN", AI + "::date_time")
+    evc = cm.evaluator(prog)
+    got, fn = eval_or_blind(chk, evc, "VN", AI + "::date_time")
     if got is not None:
         ds = call("core::str::<impl str>::get", F("0"), rng(4, 12))
         ts = call("core::str::<impl str>::get", F("0"), rng(13, 19))
         pd = lambda x: call("chrono::naive::date::NaiveDate::parse_from_str", x, C("%Y%m%d", "&str"))
         pt = lambda x: call("chrono::naive::time::NaiveTime::parse_from_str", x, C("%H%M%S", "&str"))
-        want = sym.opt_match(ds, lambda d: sym.res_match(pd(d), lambda date: sym.opt_match(ts, lambda t: sym.res_match(pt(t), lambda time: some(call(
-            "chrono::datetime::DateTime::<Tz>::from_naive_utc_and_offset", call("chrono::naive::datetime::NaiveDateTime::new", date, time), ("const", "chrono::Utc", "chrono::offset::utc::Utc"))),
+        want = sym.opt_match(ds, lambda d: sym.res_match(pd(d), lambda date: sym.opt_match(ts, lambda t: sym.res_match(pt(t), lambda time: some(("instant", date, time)),
             lambda e: NONE), lambda: NONE), lambda e: NONE), lambda: NONE)
-        okk = canon_calls(got) == canon_calls(want)
+        okk = canon_calls(got) == canon_calls(want) or piecewise_eq(canon_calls(got), canon_calls(want))
         chk.ob("VN", AI + "::date_time", okk, "date = bytes 4..12 as %Y%m%d, time = bytes 13..19 as %H%M%S, combined as a UTC instant; None when any step fails" if okk else
                "archive date-time parsing differs: %s" % show(got)[:400], fn.where(), key="archive-date-time")
         chk.ob("R-SIB", AI + "::date_time", 12 - 4 == len("YYYYMMDD") and 19 - 13 == len("HHMMSS"), "slice widths equal the formats' digit counts", fn.where(), key="widths")
